@@ -466,7 +466,7 @@ def parity(fn, path, var_decl, upto_id):
                     if v.get("decl") == var_decl and isinstance(v.get("init"), dict):
                         par = expr_parity(v["init"])
             elif k == "assign" and strip_all_casts(n["l"]).get("decl") == var_decl:
-                par = expr_parity(n["r"])
+                par = expr_parity(n["r"], {var_decl: par})
             elif k == "cassign" and strip_all_casts(n["l"]).get("decl") == var_decl:
                 c = const_value(n["r"])
                 if n.get("op") in ("+", "-") and c is not None:
@@ -504,18 +504,21 @@ def parity(fn, path, var_decl, upto_id):
     return par
 
 
-def expr_parity(e):
+def expr_parity(e, known=None):
+    """parity of an expression; `known` maps a declaration to the parity it currently has (`length = length + 1`)"""
     e = strip_all_casts(e)
     c = const_value(e)
     if c is not None:
         return "even" if c % 2 == 0 else "odd"
+    if known and e.get("k") == "ref" and e.get("decl") in known:
+        return known[e["decl"]]
     if e.get("k") == "bin":
         if e["op"] == "&" and const_value(e["r"]) is not None and const_value(e["r"]) % 2 == 0:
             return "even"
         if e["op"] == "*" and (const_value(e["r"]) in (2, 4, 8) or const_value(e["l"]) in (2, 4, 8)):
             return "even"
         if e["op"] in ("+", "-"):
-            a, b = expr_parity(e["l"]), expr_parity(e["r"])
+            a, b = expr_parity(e["l"], known), expr_parity(e["r"], known)
             if "unknown" in (a, b):
                 return "unknown"
             return "even" if a == b else "odd"
@@ -648,7 +651,17 @@ def run(ctx):
                 g is not None and (g.raw.get("targs") or ["?"])[0] == hdr
             res.check(ok, "C13-R1", "%s::setData:forward" % cls.replace(NS, ""), f.loc, "forwards (data, length) unchanged to Payload::setData<%s>" % hdr.split("::", 2)[-1],
                       "%s::setData does not forward its data pointer and length unchanged to Payload::setData<its own Header>" % cls)
-            uncond = all(any((callee_name(x) or "").endswith("Payload::setData") for x in q.calls()) for q in allp)
+            hsz = fb.record(hdr)["size"]
+
+            def empty_case(q):
+                """a path that does not forward: it is the zero-length case spelled out — the length is known to be 0 and the buffer is
+                resized to exactly the header (what the forwarded call does for n = 0)"""
+                zero = any((a[0] == "cmp" and a[2] == "==" and ((strip_all_casts(a[4]).get("decl") == lenp and const_value(a[5]) == 0) or
+                                                                  (strip_all_casts(a[5]).get("decl") == lenp and const_value(a[4]) == 0))) or
+                           (a[0] == "truth" and a[2] is False and strip_all_casts(a[3]).get("decl") == lenp) for a in q.atoms)
+                rs = [x for x in q.calls() if (x.get("callee") or {}).get("nm") == "resize" and fb.is_payload_buffer(x.get("obj", {}))]
+                return zero and len(rs) == 1 and const_value(strip_all_casts(rs[0]["args"][0])) == hsz
+            uncond = all(any((callee_name(x) or "").endswith("Payload::setData") for x in q.calls()) or empty_case(q) for q in allp if q.end == "exit")
         else:
             ok, why = stores_pair(f, hdr)
             res.check(ok, "C13-R1", "%s::setData:forward" % cls.replace(NS, ""), f.loc, "stores (data, length) itself: resize(sizeof(Header) + n), copy n bytes behind the header",
